@@ -141,3 +141,26 @@ pub fn u_prefix_suffix() -> Universe {
     }
     Universe::from_words("U_ps{x,y}x{1,:,A,a,U+0663} all subsets", w, 0)
 }
+
+/// Several prefixes followed by the same unit repeated 1..=4 times: every combination of repeat counts per prefix
+/// (gaps, adjacent counts, identical and different count sets under different prefixes).
+pub fn u_prefix_counts() -> Universe {
+    let mut w = vec![];
+    for p in ["y", "z", "bc"] {
+        for n in 1..=4 {
+            w.push(format!("{p}{}", "x".repeat(n)));
+        }
+    }
+    Universe::from_words("U_pc{y,z,bc}x^{1..4} all subsets", w, 0)
+}
+
+pub fn u_prefix_counts_unit() -> Universe {
+    let mut w = vec![];
+    for p in ["y", "z"] {
+        for n in 1..=4 {
+            w.push(format!("{p}{}", "ab".repeat(n)));
+        }
+        w.push(format!("{p}c"));
+    }
+    Universe::from_words("U_pc{y,z}(ab)^{1..4}+c all subsets", w, 0)
+}
